@@ -175,7 +175,7 @@ func zzID(w Watch) WatchID {
 // API, with the controller's Watch possibly failing.
 //
 //gosym:harness seqgo locks
-//gosym:cover running stopped lost-informer restarted watch-failed stopwatches
+//gosym:cover running stopped lost-informer restarted watch-failed stopwatches same-watch-twice
 func HarnessC13EngineSteps() {
 	infs := &zzInformers{}
 	elected := make(chan struct{})
@@ -249,6 +249,12 @@ func HarnessC13EngineSteps() {
 			if zz.Bool("op.watch" + string(rune('0'+k))) {
 				ws = append(ws, w)
 			}
+		}
+		if len(ws) > 0 && zz.Bool("op.firstWatchTwice") {
+			// a caller asks for one watch per composed resource: two resources
+			// of one kind name the same watch twice
+			ws = append(ws, ws[0])
+			zz.Cover("same-watch-twice")
 		}
 		ctrl.failNext = zz.Bool("op.watchFails")
 		before := ctrl.watches
